@@ -433,24 +433,40 @@ def finish (s : PState) (endPos : Nat) (lastLen : Nat) : Outcome :=
     | f :: _ => .reject endPos lastLen (.endUnfinished f.d.name)
     | [] => .accept s.result
 
-/-- fold `step` over the tokens; a `rewind` re-delivers the same token once. -/
-def run (T : Table) (endPos : Nat) (lexErr : Option (Nat × Bytes)) :
-    List Tok → PState → Nat → Outcome
-  | [], s, lastLen =>
-    match lexErr with
-    | some (p, _) => .reject p lastLen .lexical
-    | none => finish s endPos lastLen
+/-- deliver one token, re-delivering it once after a `rewind` (`lexer.pos -= 1`). -/
+def deliver (T : Table) (s : PState) (tok : Tok) : Except Outcome PState :=
+  match step T s tok with
+  | .ok s' => .ok s'
+  | .reject e rew => .error (.reject (if rew then tok.pos - 1 else tok.pos) tok.text.length e)
+  | .crash w => .error (.crash w)
+  | .rewind s' =>
+    match step T s' tok with
+    | .ok s'' => .ok s''
+    | .reject e rew => .error (.reject (if rew then tok.pos - 1 else tok.pos) tok.text.length e)
+    | .crash w => .error (.crash w)
+    | .rewind _ => .error .hang
+
+/-- result of feeding a token list: stopped with an outcome, or all consumed -/
+inductive Fed where
+  | stop (o : Outcome)
+  | done (s : PState) (lastLen : Nat)
+
+/-- the `for` loop: fold `deliver` over the tokens, stopping at the first rejection -/
+def feed (T : Table) : List Tok → PState → Nat → Fed
+  | [], s, lastLen => .done s lastLen
   | tok :: rest, s, _ =>
-    match step T s tok with
-    | .ok s' => run T endPos lexErr rest s' tok.text.length
-    | .reject e rew => .reject (if rew then tok.pos - 1 else tok.pos) tok.text.length e
-    | .crash w => .crash w
-    | .rewind s' =>
-      match step T s' tok with
-      | .ok s'' => run T endPos lexErr rest s'' tok.text.length
-      | .reject e rew => .reject (if rew then tok.pos - 1 else tok.pos) tok.text.length e
-      | .crash w => .crash w
-      | .rewind _ => .hang
+    match deliver T s tok with
+    | .error o => .stop o
+    | .ok s' => feed T rest s' tok.text.length
+
+def run (T : Table) (endPos : Nat) (lexErr : Option (Nat × Bytes)) (toks : List Tok)
+    (s : PState) (lastLen : Nat) : Outcome :=
+  match feed T toks s lastLen with
+  | .stop o => o
+  | .done s' n =>
+    match lexErr with
+    | some (p, _) => .reject p n .lexical
+    | none => finish s' endPos n
 
 /-- `Parser.parse(text)` on bytes; `prev` is the parser object's previous state (ignored: reset) -/
 def parse (T : Table) (text : Bytes) (_prev : PState := {}) : Outcome :=
